@@ -8,6 +8,7 @@ import (
 	"math/big"
 	"sort"
 	"strings"
+	"sync"
 
 	"github.com/notaryproject/notation-core-go/signature"
 
@@ -174,6 +175,27 @@ func c13Scenarios(tier mc.Tier) []mc.Scenario {
 	return out
 }
 
+var c13RefusedEnvs sync.Map // media+scheme -> []byte
+
+// c13Refused gives the library a correctly signed, refused envelope that carries the attribute `io.example.left-behind` (critical).
+func c13Refused(media, scheme string) {
+	k := media + "|" + scheme
+	v, ok := c13RefusedEnvs.Load(k)
+	if !ok {
+		cont := baseContent(scheme)
+		cont.Ext = []envenc.ExtAttr{{Key: "io.example.left-behind", Critical: true, Value: "from a refused envelope"}}
+		spec := newEnvSpec(media, cont, "p256-e")
+		spec.crit = append(spec.crit, "io.example.phantom")
+		env, _, _, valid := spec.encode(nil, "")
+		if !valid {
+			panic(mc.HarnessError{Msg: "C13: invalid signature from the encoder (refused envelope)"})
+		}
+		v, _ = c13RefusedEnvs.LoadOrStore(k, env)
+	}
+	parseVerify(media, v.([]byte))
+	parseContent(media, v.([]byte))
+}
+
 func c13Body(c *mc.Ctx, media, scheme string, maxN int) {
 	labels := labelsFor(media)
 	values := valuesFor(media, c.Tier)
@@ -286,6 +308,9 @@ func c13Body(c *mc.Ctx, media, scheme string, maxN int) {
 		panic(mc.HarnessError{Msg: "C13: invalid signature from the encoder"})
 	}
 	c.Statef("n=%d critical=%b mustReject=%v recorded=%v", n, critMask, mustReject, recorded)
+	// just before, the process handled an envelope of the same format that is correctly signed but *refused* (its crit names a header
+	// it does not carry) and that has an attribute of its own: nothing of a refused envelope may show up in the next one
+	c13Refused(media, scheme)
 	vc, vperr, verr, vpan := parseVerify(media, env)
 	cc, cperr, cerr, cpan := parseContent(media, env)
 	if vpan != nil || cpan != nil {
